@@ -765,3 +765,40 @@ spec("C15", plan=plan_c15,
           "match result, consumed length, stored value exact, or overflow signalled (parse_error; local failure without consumption for "
           "maximum_rule), never a wrapped value.  Non-trivial: numerals that overflow the target or lie within 20 of a boundary.",
      assumptions=COMMON_ASSUME)
+
+# ---------------------------------------------------------------------------- C16
+
+
+def plan_c16(tier, seed, workdir, case):
+    t = Target("c16_raw_string", "targets/c16_raw_string.cpp", mode="rc", extra=("-O2",))
+    return [Run(t, nshards=1 if case else 16, timeout=3000)]
+
+
+spec("C16", plan=plan_c16,
+     rule="all strings up to length 3 and all strings beginning with the opening character up to length 8 (thorough 10) over {Open, Marker, "
+          "Close, LF, CR, x, a}, translated to each of 10 instances: [=] under all five end-of-line policies, [=] with content rules alpha "
+          "and not_one<'x'>, (-) under lf_crlf and cr, and < LF > (the marker is an end-of-line character); rapidcheck strings with levels "
+          "0..4, decoy brackets of other levels, one optional damaged byte, optional missing close.  Each both bare (top-level rewind "
+          "required) and inside sor< raw_string, any >.  Oracle: independent scanner: result, consumed length, span of the content action "
+          "(exactly one call), and on failure nothing consumed (sor then consumes exactly one byte).  Non-trivial: strings that contain a "
+          "well-formed opening bracket; distinct = (instance, text).",
+     assumptions=COMMON_ASSUME + ["content rules used are one-byte rules, for which 'content is a concatenation of matches' is unambiguous"])
+
+# ---------------------------------------------------------------------------- C19
+
+
+def plan_c19(tier, seed, workdir, case):
+    t = Target("c19_lines", "targets/c19_lines.cpp", mode="rc", extra=("-O2",))
+    return [Run(t, nshards=1 if case else 16, timeout=3000)]
+
+
+spec("C19", plan=plan_c19,
+     rule="all inputs up to length 7 (thorough 8) over {a, b, LF, CR} and rapidcheck texts built from line pieces; every position 0..size "
+          "obtained from real runs (the input's own position() after each step of sor<eol,any> resp. any, plus a parse_error position); "
+          "five end-of-line policies x eager/lazy x initial counters {0/1/1, 7/5/4, 1000/1/1, 0/3/9}.  Oracle: independent line splitter "
+          "(lines separated by the policy's end-of-line sequences, leftmost-longest): at(p) is the byte at the position's offset, "
+          "begin_of_line/end_of_line are the bounds of the line containing it, line_at its bytes, and every returned pointer lies inside "
+          "[data, data+size].  Positions strictly inside an end-of-line sequence are only checked for the pointer range; inputs in which "
+          "the policy's end-of-line character occurs outside an end-of-line sequence (policy crlf with a lone LF) are not judged, because "
+          "tracking and matching define 'line' differently there.  Non-trivial: positions on line >= 2 or with non-default counters.",
+     assumptions=COMMON_ASSUME)
